@@ -4,6 +4,7 @@ import Driver.Sat
 import FmpRpc.Model.ConnMon
 import FmpRpc.Model.Replay
 import FmpRpc.Model.ConnReplay
+import FmpRpc.Model.CT
 /-
   Oracle: runs the model's executable definitions on the operations the Go
   harness ran on the implementation, one line in, one line out.
@@ -81,6 +82,10 @@ def handle (line : String) : String :=
   | "tlsdial2" :: rest => Sat.tlsdial2 rest
   | ["selfcheck"] => "ok"
   | "replay" :: _ => T.replay ((line.drop 7).toString)
+  | ["ct", tls, ops] =>
+    (match (ops.splitOn ",").mapM CT.parseOp with
+     | some os => " | ".intercalate (CT.trace { tls := tls = "1" } os)
+     | none => "bad-op")
   | "creplay" :: _ => Cn.replay ((line.drop 8).toString)
   | "cmon" :: _ =>
     let v := CM.all (CM.parseHist ((line.drop 5).toString))
